@@ -55,13 +55,22 @@ BAD_LINE = b"* BAD line exceeds maximum allowed length\r\n"
 
 
 _VIOL: dict = {}
+_PENDING: list = []
 
 
-def viol(ctx, what, replay, cap=3):
-    """record a violation; at most `cap` replays per kind of violation (the count is kept)"""
+def viol(ctx, what, replay, cap=3, prio=5):
+    """record a violation; at most `cap` replays per kind of violation (the count is kept).  They are
+    handed to ctx at the end of the run, one of each kind first, so that the replay files the
+    framework writes (the first six) show different defects rather than six faces of one."""
     _VIOL[what] = _VIOL.get(what, 0) + 1
     if _VIOL[what] <= cap:
+        _PENDING.append((_VIOL[what], prio, len(_PENDING), what, replay))
+
+
+def flush_violations(ctx):
+    for (_, _, _, what, replay) in sorted(_PENDING):
         ctx.violation(what, replay)
+    del _PENDING[:]
 
 
 def mods():
@@ -110,7 +119,7 @@ def pins(ctx):
          "user_server.start_server": [None]})
     # the constants written in Model/Frame.v (real_cfg)
     try:
-        out = ctx.coq.eval_cases("c19k", "From Asimap Require Import Model.Frame.\n"
+        out = ctx.coq.eval_cases("c19k", "From Asimap Require Import Base.Res Model.Frame.\nOpen Scope Z_scope.\n"
                                  "Eval vm_compute in (maxin real_cfg, rlimit real_cfg, maxdigits real_cfg).\n")
         pin("Model/Frame.v real_cfg (maxin, rlimit, maxdigits)", [int(x) for x in re.findall(r"\d+", core.parse_coq_values(out)[0])],
             [K.MAX_INPUT_SIZE, asyncio.streams._DEFAULT_LIMIT, sys.get_int_max_str_digits()])
@@ -577,9 +586,9 @@ def front_level(ctx, loop, proof_ok):
     M = 24
     for raw, items in gen_boundary(rng, M):
         streams.append(("boundary", M, REAL_RLIMIT, raw, items))
-    nshort = 60 if ctx.thorough else 14
-    nlong = 700 if ctx.thorough else 150
-    nmal = 300 if ctx.thorough else 60
+    nshort = 100 if ctx.thorough else 14
+    nlong = 1500 if ctx.thorough else 150
+    nmal = 600 if ctx.thorough else 60
     short = []
     tries = 0
     while len(short) < nshort and tries < 5000:
@@ -672,8 +681,12 @@ def front_level(ctx, loop, proof_ok):
                 got_m = [e[1] for e in ref_events if e[0] == "M"]
                 got_w = [e[1] for e in ref_events if e[0] == "W"]
                 if got_m != want_m or got_w != want_w:
+                    named = items[0].kind == "corpus"
                     viol(ctx, "the front-end does not relay the commands the stream denotes "
-                                  "(reference tokenization vs IMAPClient.start)",
+                         "(reference tokenization vs IMAPClient.start)" + (": " + nm if named else ""),
+                         prio=((1 if nm.startswith(("D15", "over-limit LITERAL+ whose", "line longer than the reader's limit"))
+                                and "no terminator" not in nm else 3) if named else 4),
+                         replay=
                                   {"stream": repr(raw), "case": nm, "items": [(i.kind, repr(i.raw)) for i in items],
                                    "MAX_INPUT_SIZE": m, "reader_limit": lim,
                                    "commands_denoted": [repr(x) for x in want_m],
@@ -979,7 +992,7 @@ def relay_level(ctx, loop):
         ctx.count({"response_stream": "literal with a CRLF-free run longer than the 128 KiB reader limit", "server": which})
         if out != s or early:
             viol(ctx, "a response literal with a CRLF-free run longer than the reader limit does not reach the client",
-                          {"server": which, "reader_limit": REAL_RELAY_LIMIT, "response_stream":
+                 prio=2, replay={"server": which, "reader_limit": REAL_RELAY_LIMIT, "response_stream":
                               "b'* 1 FETCH (BODY[] {%d}\\r\\n' + b'x'*%d + b')\\r\\na1 OK done\\r\\n'" % (len(body), len(body)),
                            "octets_sent": len(s), "octets_delivered": len(out), "relay_ended_before_eof": early})
     ctx.extra["relay"] = {"streams": len(cases), "model_mismatches": len(rbad)}
@@ -1056,6 +1069,7 @@ def run(ctx):
     try:
         del meta_frames[:]
         _VIOL.clear()
+        del _PENDING[:]
         front_level(ctx, loop, ok)
         ipc_level(ctx, loop)
         relay_level(ctx, loop)
@@ -1063,6 +1077,7 @@ def run(ctx):
     finally:
         logging.disable(logging.NOTSET)
         loop.close()
+    flush_violations(ctx)
     if _VIOL:
         ctx.extra["violations_by_kind"] = dict(_VIOL)
     ctx.assume += [
